@@ -6,6 +6,7 @@ import Rare.Proofs.C16Src
 import Rare.Proofs.C16Key
 import Rare.Proofs.C16SrcEsc
 import Rare.Proofs.C16Ctx
+import Rare.Proofs.C16CtxSeam
 import Rare.Gen.C16
 /-!
 Property C16: the JSON views `{.}`, `{#}`, `{.#}` of a match are valid, faithful and deterministic.
@@ -1399,6 +1400,54 @@ theorem context_methods_are_source :
       ["varsbstrings.Builder", "for i:=1;i<len(s.indices)/2;i++{", "val:=s.GetMatch(i)", "if i>1{",
        "sb.WriteRune(expressions.ArraySeparator)", "}", "sb.WriteString(val)", "}", "returnsb.String()"] := by
   decide +kernel
+
+/-- the context as C02's model sees it -/
+def Ctx.toC02 (c : Ctx) : C02.MatchCtx := ⟨c.linePtr, c.indices, c.nameTable, c.source, c.lineNum⟩
+
+/-- **The two hand models of the whole `GetKey` are one function** (seam with C02, which C08's expression model
+evaluates keys through): for EVERY context and key, C02's `getKey` answers its placeholder `.json` exactly on
+the view keys, and on every other key – `src`, `line`, `@` (the NUL-joined groups), a group name, an unknown
+name – the very bytes (or the panic) of C16's `Ctx.getKey`.  So `worker_history_is_map` and
+`context_state_is_irrelevant` speak about the `GetKey` C02/C08 model too. -/
+theorem getKey_models_agree (c : Ctx) (key : Bytes) :
+    C02.getKey c.toC02 key =
+      if (viewFlags key).isSome then .ok .json else (c.getKey key).map C02.KeyAns.val := by
+  have e1 : ascii "." = [0x2e] := by decide +kernel
+  have e2 : ascii "#" = [0x23] := by decide +kernel
+  have e3 : ascii ".#" = [0x2e, 0x23] := by decide +kernel
+  have e4 : ascii "#." = [0x23, 0x2e] := by decide +kernel
+  have e5 : ascii "src" = keySrc := by decide +kernel
+  have e6 : ascii "line" = keyLine := by decide +kernel
+  have e7 : ascii "@" = [0x40] := by decide +kernel
+  have e8 : Expr.ErrorArgName = errorArgName := by decide +kernel
+  have hn : itoa (c.lineNum : Nat) = natAscii c.lineNum := by
+    unfold itoa natAscii; simp
+  unfold C02.getKey Ctx.getKey Ctx.toC02
+  rw [e1, e2, e3, e4, e5, e6, e7, e8]
+  simp only []
+  by_cases h5 : key = keySrc
+  · subst h5; simp [viewFlags, keySrc, Except.map]
+  by_cases h6 : key = keyLine
+  · subst h6; simp [viewFlags, keySrc, keyLine, Except.map, hn]
+  rw [if_neg h5, if_neg h6, if_neg h5, if_neg h6]
+  by_cases hv : key = [0x2e] ∨ key = [0x23] ∨ key = [0x2e, 0x23] ∨ key = [0x23, 0x2e]
+  · rw [if_pos hv]
+    rcases hv with h | h | h | h <;> subst h <;> simp [viewFlags]
+  · rw [if_neg hv]
+    have hvf : viewFlags key = none := by
+      unfold viewFlags
+      simp only [not_or] at hv
+      simp [hv.1, hv.2.1, hv.2.2.1, hv.2.2.2]
+    have hgj : getKeyJson key c.nameTable c.indices c.linePtr = none := by
+      rw [(view_keys key c.nameTable c.indices c.linePtr).1, hvf]; rfl
+    rw [hvf, hgj]
+    simp only [Option.isSome_none, Bool.false_eq_true, if_false]
+    by_cases h7 : key = [0x40]
+    · rw [if_pos h7, if_pos h7, ctx_array_eq_c02]
+    · rw [if_neg h7, if_neg h7]
+      cases c.nameTable.find? (fun p => p.1 == key) with
+      | none => rfl
+      | some p => simp only [Ctx.getMatch, getMatch_eq_c02]
 
 /-! non-vacuity of the round-4c theorems -/
 /-- a history with two sources at the same line number; hypotheses of `history_key_iff` hold on it -/
